@@ -245,7 +245,7 @@ impl Property for C03 {
             Phase::Enumerate { name: "every-bit-flip", total: bits.len() as u64, exhaustive: true, gen: Arc::new(move |i| b2.get(i as usize).map(|(base, bit)| C03Case::BitFlip { base: *base, bit: *bit })) },
             Phase::Random {
                 name: "constructed",
-                cases: tier.pick(40_000, 800_000),
+                cases: tier.pick(40_000, 8_000_000),
                 strat: Arc::new(|| {
                     let algo = prop_oneof![6 => Just(8u32), 2 => proptest::sample::select(vec![1u32, 9, 10, 11, 12, 14]), 2 => proptest::sample::select(vec![0u32, 2, 3, 7, 13, 255, u32::MAX]), 1 => any::<u32>()];
                     (proptest::collection::vec(any::<u8>(), 0..40), "[a-z]{1,8}", proptest::option::weighted(0.6, dk()), proptest::option::weighted(0.6, dk()), proptest::option::weighted(0.7, dk()), proptest::option::weighted(0.6, (dk(), algo)), prop_oneof![2 => Just(vec![]), 1 => proptest::collection::vec(any::<u16>(), 12)], prop_oneof![4 => Just(vec![]), 1 => proptest::collection::vec(any::<bool>(), 1..3)])
